@@ -61,15 +61,36 @@ Record answer := {
   a_prog : list req;                  (* built with cpu()/cuda_gpu()/duration(), & and * *)
   a_pure : list bool;                 (* per alternative: all operands unchanged afterwards *)
   a_single : list (option Z);         (* req.match(host) score per alternative *)
-  a_union : option (nat * Z)          (* RequirementUnion.match: chosen index, score *)
+  a_union : option (nat * Z);         (* RequirementUnion.match: chosen index, score *)
+  a_orunion : option (nat * Z);       (* the same union written a | b | ... *)
+  a_reg : option (option (nat * req)) (* LauncherRegistry.find over the hosts of launchers.py: None = it raised,
+                                         Some None = no launcher, Some (Some (j, r)) = host j, requirement r *)
 }.
 
-Definition check_case (c : list (list term) * host * answer) : bool :=
-  let '(e, h, a) := c in
+(* the arguments of find(): consecutive groups of the alternatives (true = one object built with |) *)
+Fixpoint split_args (gs : list (bool * nat)) (rs : list req) : list arg :=
+  match gs with
+  | [] => []
+  | (u, n) :: gs' => (u, firstn n rs) :: split_args gs' (skipn n rs)
+  end.
+Definition natreq_eqb (a b : nat * req) := Nat.eqb (fst a) (fst b) && req_eqb (snd a) (snd b).
+Definition registry_answer (args : list arg) (hs : list host) : option (nat * req) :=
+  match registry_find args hs with
+  | Some (i, j) => match nth_error (all_alts args) i with Some r => Some (j, r) | None => None end
+  | None => None
+  end.
+
+Definition check_case (c : list (list term) * host * list host * list (bool * nat) * answer) : bool :=
+  let '(e, h, hs, gs, a) := c in
   let rs := sem_expr e in
   opt_eqb (list_eqb req_eqb) (a_parsed a) (Some rs)
   && list_eqb req_eqb (a_prog a) rs
   && list_eqb req_eqb (map spec_result e) rs
   && list_eqb Bool.eqb (a_pure a) (map spec_pure e)
   && list_eqb (opt_eqb Z.eqb) (a_single a) (map (fun r => match_simple r h) rs)
-  && opt_eqb natz_eqb (a_union a) (union_match rs h).
+  && opt_eqb natz_eqb (a_union a) (union_match rs h)
+  && opt_eqb natz_eqb (a_orunion a) (union_match rs h)
+  && match a_reg a with
+     | None => false
+     | Some got => opt_eqb natreq_eqb got (registry_answer (split_args gs rs) hs)
+     end.
